@@ -179,7 +179,7 @@ Section BigStep.
          then drain e (chain_gen call (defs_of (e_ctx e) name (length args)) args nx s e)
          else ([], Raise).
   Proof.
-    unfold fun_phase, defs_of. destruct (reserved name); [reflexivity|].
+    unfold fun_phase, lookup_phase, call_phase, defs_of. destruct (reserved name); [reflexivity|].
     destruct (resolve (e_ctx e) name (length args)) as [ds|]; simpl; [|reflexivity].
     destruct (forallb (params_ok (length args)) ds); reflexivity.
   Qed.
